@@ -44,7 +44,18 @@ def s1_complete(ctx, impls):
     f = ctx.fn(CT + '::Skip(unsigned long)')
     ctx.inst(R)
     import re as _re
-    t = _re.sub(r'@\d+', '', render_stmt(f['body'], f, inline_locals=False))
+    def elem_names(g):
+        """render with every range-for element variable called l:callbacks (its name is immaterial)"""
+        t_ = render_stmt(g['body'], g, inline_locals=False)
+        for n in walk(g['body']):
+            if n.get('k') == 'rangefor' and isinstance(n.get('var'), dict):
+                t_ = t_.replace('l:' + n['var']['name'], 'l:callbacks')
+        return _re.sub(r'@\d+', '', t_)
+    t = elem_names(f)
+    m_ = _re.search(r'\(var (\S+) \$0\)', t)
+    if m_:
+        # the running minimum is a local initialised with the budget; its name is immaterial
+        t = t.replace('l:' + m_.group(1), 'l:ticks').replace('(var %s ' % m_.group(1), '(var ticks ')
     RC = 'f:%s::registered_callbacks' % CT
     ok = '(var ticks $0)' in t and '(rangefor %s {(= l:ticks (call std::min<unsigned long> l:ticks (call %s::GetMaxSkip on l:callbacks )))})' % (RC, CB) in t \
         and '(rangefor %s {(call %s::Skip on l:callbacks l:ticks)})' % (RC, CB) in t and t.rstrip('}').endswith('(return l:ticks)') \
@@ -53,7 +64,7 @@ def s1_complete(ctx, impls):
         ctx.report(R, f, f['body'], 'CoreTiming::Skip', 'fast-forward is not min over all horizons followed by Skip(ticks) on all, returning ticks: ' + t[:400])
     f = ctx.fn(CT + '::Tick()')
     ctx.inst(R)
-    if _re.sub(r'@\d+', '', render_stmt(f['body'], f, inline_locals=False)) != '{(rangefor %s {(call %s::Tick on l:callbacks )})}' % (RC, CB):
+    if elem_names(f) != '{(rangefor %s {(call %s::Tick on l:callbacks )})}' % (RC, CB):
         ctx.report(R, f, f['body'], 'CoreTiming::Tick', 'per-cycle tick does not visit every registered callback')
     f = ctx.fn(CT + '::RegisterCallbacks(Teakra::CoreTiming::Callbacks *)')
     ctx.inst(R)
